@@ -448,6 +448,7 @@ func runC18Case(bin, dir string, c c18case, sh *core.Shard) (sig, what, inconclu
 	}
 	defer func() { sh.Count("requests_during_fault_cases", reqs.Load()) }()
 	stopOnce := func() { close(stopTraffic); tw.Wait() }
+	drainProbe := false
 	if c.Phase == "requests-in-flight" {
 		for _, l := range onVictim {
 			l.slow.Store(int64(grace / 4))
@@ -455,7 +456,24 @@ func runC18Case(bin, dir string, c c18case, sh *core.Shard) (sig, what, inconclu
 		for k := 0; k < 6; k++ {
 			go probe(ps[k%len(ps)], []string{"va", "vb"}[k%2])
 		}
-		time.Sleep(200 * time.Millisecond)
+		if c.Signal == "term" {
+			// two long requests enter at the victim's proxy and are served by a
+			// survivor's upstream: they keep the victim's proxy draining for 4 s (< grace)
+			for _, l := range ls {
+				if l.ep == "sa" {
+					l.slow.Store(int64(4 * time.Second))
+				}
+			}
+			go probe(victim, "sa")
+			go probe(victim, "sa")
+			drainProbe = true
+		}
+		time.Sleep(300 * time.Millisecond)
+		for _, l := range ls {
+			if l.ep == "sa" {
+				l.slow.Store(0) // the handlers already in flight keep sleeping
+			}
+		}
 	}
 	// ---- the fault
 	t0 := time.Now()
@@ -473,6 +491,22 @@ func runC18Case(bin, dir string, c c18case, sh *core.Shard) (sig, what, inconclu
 		_ = victim.cmd.Process.Signal(syscall.SIGTERM)
 	default:
 		_ = victim.cmd.Process.Kill()
+	}
+	if drainProbe {
+		// "stops advertising its upstreams" comes first: two seconds into a shutdown
+		// that is still draining requests (about 100x the time the upstream server
+		// needs to drop its connections) the victim must hold no upstream any more
+		select {
+		case <-victim.exited:
+		case <-time.After(2 * time.Second):
+			if v, err := victim.local(); err == nil && victim.alive() {
+				sh.Count("mid_drain_observations", 1)
+				if len(v.Endpoints) > 0 {
+					stopOnce()
+					return "still-advertising-while-draining", fmt.Sprintf("%s: two seconds after SIGTERM, while requests through its proxy are still draining, the node still holds and advertises upstreams %v: listeners cannot move to a survivor and other nodes keep routing to it", c, v.Endpoints), ""
+				}
+			}
+		}
 	}
 	select {
 	case <-victim.exited:
@@ -703,12 +737,12 @@ func clip(s string, n int) string {
 func init() {
 	props.Register(&props.Prop{
 		ID: "C18", Level: "fault_enumeration", Parallel: 6, ExhaustiveWhenAll: true,
-		Rule: "clusters of 3 (thorough 3-5) real `piko server` processes started from the freshly built binary (thorough: race-built) with a 5 s grace period and 50 ms gossip interval; upstream listeners (client.Upstream, created agent-style with a cancelled connect context and with a live one) connect through a harness TCP load balancer so that a reconnect can land on a survivor; two endpoints live only on the victim, one only on a survivor, one on both; steady request traffic on every node. Enumerated completely: victim = every node x phase in {idle, upstreams connected, requests in flight (each grace/4 long), mid-shutdown (SIGTERM then SIGKILL / second SIGTERM)} x {SIGTERM, SIGKILL}. Oracle. Graceful: the process exits with status 0 within grace+10 s, and at the instant it has exited every survivor lists it as left or not at all; crash: every survivor flags it unreachable (60 s watchdog => inconclusive). Both: every listener keeps serving (a Serve/Accept that returned although nobody closed the listener is a violation), every endpoint is registered again on survivors exactly as often as the harness holds listeners, and once the survivors' tables mirror each other's own state every endpoint answers 200 through every surviving node; no survivor's remote_requests_total{node_id=victim} grows after the departure was known. Distinct = one per (size, victim, phase, signal).",
+		Rule: "clusters of 3 (thorough 3-5) real `piko server` processes started from the freshly built binary (thorough: race-built) with a 5 s grace period and 50 ms gossip interval; upstream listeners (client.Upstream, created agent-style with a cancelled connect context and with a live one) connect through a harness TCP load balancer so that a reconnect can land on a survivor; two endpoints live only on the victim, one only on a survivor, one on both; steady request traffic on every node. Enumerated completely: victim = every node x phase in {idle, upstreams connected, requests in flight (each grace/4 long), mid-shutdown (SIGTERM then SIGKILL / second SIGTERM)} x {SIGTERM, SIGKILL}. Oracle. Graceful: two seconds into a shutdown whose proxy is still draining 4 s requests the victim already holds no upstream (it stops advertising first); the process exits with status 0 within grace+10 s, and at the instant it has exited every survivor lists it as left or not at all; crash: every survivor flags it unreachable (60 s watchdog => inconclusive). Both: every listener keeps serving (a Serve/Accept that returned although nobody closed the listener is a violation), every endpoint is registered again on survivors exactly as often as the harness holds listeners, and once the survivors' tables mirror each other's own state every endpoint answers 200 through every surviving node; no survivor's remote_requests_total{node_id=victim} grows after the departure was known. Distinct = one per (size, victim, phase, signal).",
 		Assumptions: []string{
 			"settling is decided from the admin API of the survivors; pure slowness beyond the 60 s watchdog is inconclusive, never a violation",
 			"'mid-shutdown' is approximated by a second signal 150 ms after SIGTERM",
 		},
-		RequireCounters: []string{"graceful_exits", "departure_seen_by_all_at_exit", "crash_flagged_unreachable_by_all", "listeners_reattached", "recovered_probes"},
+		RequireCounters: []string{"graceful_exits", "departure_seen_by_all_at_exit", "crash_flagged_unreachable_by_all", "listeners_reattached", "recovered_probes", "mid_drain_observations"},
 		Shards:          func(string) int { return 12 },
 		Timeout: func(tier string) time.Duration {
 			if tier == "thorough" {
